@@ -7,7 +7,7 @@ SPEC = {
              "floats as integers, with leading/trailing point, fixed, exponent e/E with and without sign, 17-digit, subnormal, max, -0; ten boolean spellings; strings "
              "with quotes and backslashes; unique timestamps near 2023, the epoch, the maximum and a shard-group boundary, precision ns/u/ms/s; CRLF, blank and comment "
              "lines, extra spaces), 50-200 lines are POSTed in one request to one long-lived real ts-server, optionally with lines broken by ONE mutation each (13 "
-             "kinds); sentinel points written afterwards tell when the index has caught up; then `select * from \"<m>\" group by *` (epoch=ns, json.Number) of every "
+             "kinds; one case in eight is a body of 700-1500 valid lines = several 64 KiB read blocks); sentinel points written afterwards tell when the index has caught up; then `select * from \"<m>\" group by *` (epoch=ns, json.Number) of every "
              "measurement of the case, `show measurements` and `show field keys` must equal the structured points bit for bit: HTTP 204 => every valid line stored "
              "exactly and nothing else; a request whose last line is broken must get 4xx; on 4xx the valid lines are stored as a whole or not at all; a value, row, "
              "series or measurement that no valid line wrote is never admissible. parse_roundtrip: the same generator (1-6 lines, full measurement alphabet, lines "
@@ -23,7 +23,8 @@ SPEC = {
                     "the expected float of a spelling is strconv.ParseFloat's correctly rounded reading of the text; JSON numbers are compared after strconv.ParseFloat",
                     "known-finding classes are left out by construction and counted under excluded_by_construction: |int| > 2^53; float spellings on which the model of the "
                     "best-effort fast path (fastPathFloat) is not correctly rounded, incl. a leading '+'; timestamp x precision beyond int64; mutated values ending in 'f'; "
-                    "quotes inside unquoted values; the acknowledgement of a request in which a broken line is followed by another line"],
+                    "quotes inside unquoted values; the acknowledgement of a request in which a broken line is followed by another line. After a fix a class is switched "
+                    "back on with env C06_ALLOW=bigint,floatfast,tsoverflow,garbagef,quoteinside,strict (budget key `env`)"],
     "campaigns": [
         {"name": "write_query_roundtrip", "run": "^TestWriteQueryRoundTrip$", "quick": B(10, 5, 600, shrinktime="60s"), "thorough": B(160, 7, 3000, shrinktime="180s")},
         {"name": "parse_roundtrip", "run": "^TestParseRoundTrip$", "quick": B(40000, 2, 600), "thorough": B(1000000, 4, 3000)},
